@@ -850,7 +850,8 @@ pub fn c10(scn: &Scenario, tr: &[Ev]) -> Vec<Violation> {
         let Some(t) = k.timeout() else { continue };
         let (Some(a), Some(m)) = (o.target, o.msg) else { continue };
         let ax = &ix.actors[a];
-        let deadline = o.t0 + t as u64;
+        // (the virtual clock moves in whole milliseconds: a deadline that is not one is reached at the next one)
+        let deadline = o.t0 + crate::model::timeout_ms_ceil(t);
         premise();
         let Some(t1) = o.t1 else {
             v(&mut out, "C10 returns by its deadline", format!("op {} (timeout {t} at t={}) never returned", o.op, o.t0));
